@@ -937,3 +937,133 @@ pub fn shard_of() -> (usize, usize) {
         Err(_) => (0, 1),
     }
 }
+
+/// Two-context bus simulation (the code-level counterpart of spec/Link.tla): a real requester context brings
+/// up a real responder context over a faulty wire.  The responder receives the way a driver uses the API
+/// (length probe on a three-byte prefix, read that many bytes, process_packet); the requester decodes every
+/// response it gets.  Faults: drop, truncate, one burst of <= 8 bits, duplicate (delivered late).
+pub fn bus(d: &mut D) {
+    d.std_ctxs();
+    let rounds = if d.thorough { 300 } else { 40 };
+    for round in 0..rounds {
+        let bo_addr = d.g.byte() & 0x7F;
+        let ep_addr = d.g.byte() & 0x7F;
+        let nv = 1 + d.g.below(4) as usize;
+        let vs: Vec<(u8, [u8; 4], [u8; 2])> = (0..nv)
+            .map(|_| {
+                let f = d.g.below(2) as u8;
+                let b = d.g.bytes(6);
+                (f, if f == 0 { [0, 0, b[2], b[3]] } else { [b[0], b[1], b[2], b[3]] }, [b[4], b[5]])
+            })
+            .collect();
+        let nm = d.g.below(5) as usize;
+        let mts = d.g.bytes(nm);
+        d.new_ctx(7, bo_addr, &[], &[(0, [0, 0, 0, 1], [0, 0])]);
+        d.new_ctx(8, ep_addr, &mts, &vs);
+        if round % 2 == 0 {
+            let u = d.g.bytes(16);
+            d.ex(json!({"op":"set_uuid","ctx":8,"uuid":jb(&u)}));
+        }
+        let new_eid = 1 + d.g.below(254);
+        let script: Vec<(&str, Value)> = vec![
+            ("set_endpoint_id", json!({"dst":ep_addr,"operation":d.g.below(2),"eid":new_eid})),
+            ("get_endpoint_id", json!({"dst":ep_addr})),
+            ("get_endpoint_uuid", json!({"dst":ep_addr})),
+            ("get_mctp_version_support", json!({"dst":ep_addr,"query":0xFF})),
+            ("get_message_type_suport", json!({"dst":ep_addr})),
+        ];
+        let mut iid = d.g.byte() & 0x1F;
+        let mut late: Option<Vec<u8>> = None;
+        // one exchange: returns the response bytes the requester accepted, if any
+        let exchange = |d: &mut D, name: &str, args: Value, iid: u8, late: &mut Option<Vec<u8>>| -> Option<Vec<u8>> {
+            for _try in 0..3 {
+                let mut p = d.enc_req(7, name, args.clone());
+                if p.is_empty() {
+                    return None;
+                }
+                p[9] = 0x80 | iid;
+                fix_pec(&mut p);
+                let mut deliveries: Vec<Vec<u8>> = Vec::new();
+                match d.g.below(10) {
+                    0 => {} // dropped
+                    1 => {
+                        let k = 1 + d.g.below(p.len() as u64 - 1) as usize;
+                        deliveries.push(p[..k].to_vec());
+                    }
+                    2 | 3 => {
+                        let bits = p.len() * 8;
+                        let off = d.g.below(bits as u64) as usize;
+                        let pat = 0x80 | d.g.byte();
+                        let mut q = p.clone();
+                        for b in 0..8 {
+                            if pat & (0x80 >> b) != 0 && off + b < bits {
+                                q[(off + b) / 8] ^= 0x80 >> ((off + b) % 8);
+                            }
+                        }
+                        deliveries.push(q);
+                    }
+                    4 => {
+                        deliveries.push(p.clone());
+                        *late = Some(p.clone()); // a duplicate that turns up during a later exchange
+                    }
+                    _ => deliveries.push(p.clone()),
+                }
+                if let Some(l) = late.take() {
+                    if d.g.chance(1, 2) {
+                        deliveries.insert(0, l);
+                    } else {
+                        *late = Some(l);
+                    }
+                }
+                let mut accepted: Option<Vec<u8>> = None;
+                for q in deliveries {
+                    // the responder's driver: probe, read, process
+                    if q.len() < 3 {
+                        d.get_length(8, &q);
+                        continue;
+                    }
+                    let pr = d.get_length(8, &q[..3]);
+                    if pr["res"]["kind"] != "ok" {
+                        continue;
+                    }
+                    let want = pr["res"]["len"].as_u64().unwrap() as usize;
+                    let rx = &q[..want.min(q.len())];
+                    let e = d.process(8, rx);
+                    let rl = e["res"]["resp_len"].as_i64().unwrap_or(-1);
+                    if rl >= 0 {
+                        let r = crate::runner::bytes(&e["rbuf"]);
+                        // the requester's side: decode (and process: a response never gets a response)
+                        let de = d.decode(7, &r);
+                        d.process(7, &r);
+                        if r.len() >= 12
+                            && (de["res"]["kind"] == "ok" || de["res"]["err"] == "Unsuccessful")
+                            && r[9] & 0x1F == iid
+                            && r[10] == p[10]
+                            && accepted.is_none()
+                        {
+                            accepted = Some(r);
+                        }
+                    }
+                }
+                if accepted.is_some() {
+                    return accepted;
+                }
+            }
+            None
+        };
+        for (name, args) in script {
+            exchange(d, name, args, iid, &mut late);
+            iid = (iid + 1) & 0x1F;
+        }
+        // follow the vendor set selectors as far as the answers lead
+        let mut sel = 0u64;
+        for _ in 0..(nv + 2) {
+            let r = exchange(d, "get_vendor_defined_message_support", json!({"dst":ep_addr,"selector":sel}), iid, &mut late);
+            iid = (iid + 1) & 0x1F;
+            match r {
+                Some(r) if r.len() >= 14 && r[11] == 0 && r[12] != 0xFF => sel = r[12] as u64,
+                _ => break,
+            }
+        }
+    }
+}
